@@ -9,7 +9,11 @@ import (
 	"github.com/couchbase/gocbcore/v10"
 )
 
-const vNVB = 2 // vBuckets 0 and 1
+const vNVB = 3 // capacity of the per-vBucket arrays
+
+var vNVcur = 2 // vBuckets 0..vNVcur-1 are assigned in the current harness
+
+func vNV() int { return vNVcur }
 
 type vSession struct {
 	s  *stream
@@ -30,14 +34,14 @@ type vSession struct {
 func vNewSession() *vSession {
 	ss := &vSession{fc: &vfakeConsumer{}, fm: vNewFakeMetadata()}
 	ss.s = vNewStream(ss.fc, ss.fm)
-	ss.s.vbIDRange = &models.VbIDRange{Start: 0, End: vNVB - 1}
+	ss.s.vbIDRange = &models.VbIDRange{Start: 0, End: uint16(vNV() - 1)}
 	ss.fm.failNext = func() bool { return ss.failSave }
 	ss.fc.onConsume = func(ctx *models.ListenerContext) {
 		if ss.ackNow {
 			ss.ackIdx(len(ss.fc.consumed) - 1)
 		}
 	}
-	for vb := 0; vb < vNVB; vb++ {
+	for vb := 0; vb < vNV(); vb++ {
 		r := vOffset("resume")
 		ss.s.offsets.Store(uint16(vb), r)
 		ss.lastSeq[vb] = r.SeqNo
